@@ -445,23 +445,6 @@ def InplaceProgramOK : Prop :=
     ∧ (∀ w, inplaceClosed name S o = .raise w → inplaceSelfAfter name S o = some S)
     ∧ (∀ R, inplaceClosed name S o = .ok R → inplaceSelfAfter name S o = some R)
 
-/-- the constructor's `if data_folded:` block (generated `ctor_selfMaskAfter`) leaves the mask it is given as it is — for every shape
-    (whole spectra and slices), every data, every mask, folded or not.  Proved from the generated definitions: a store into
-    `subarr.mask` in that block changes `ctor_selfMaskAfter` and this proof no longer goes through. -/
-theorem ctorMask_eq (shape : List ℕ) (b : Bool) (x : ℕ → ℚ) (m : ℕ → Bool) (k : ℕ) : ctorMask shape b x m k = m k := by
-  unfold ctorMask
-  cases b
-  · rfl
-  · simp only [if_true]
-    ctor_program_unfold
-
-theorem ctorData_eq (shape : List ℕ) (b : Bool) (x : ℕ → ℚ) (m : ℕ → Bool) (k : ℕ) : ctorData shape b x m k = x k := by
-  unfold ctorData
-  cases b
-  · rfl
-  · simp only [if_true]
-    ctor_program_unfold
-
 theorem tabulate_getD_or (N : ℕ) (f c : ℕ → Bool) :
     (tabulate N fun k => (tabulate N f).getD k false || c k) = tabulate N fun k => f k || c k := by
   apply tabulate_congr
